@@ -194,7 +194,8 @@ def t14(repo, res, canon, logic):
                 break
     st = repo.func('Scheduler.start')
     if need is not None:
-        writes = [n for n in walk_no_nested(st.node) if isinstance(n, ast.Assign) and canon.c(n.targets[0], Frame(st)) == 'Scheduler.status']
+        writes = [n for n in walk_no_nested(st.node) if isinstance(n, ast.Assign) and isinstance(n.targets[0], ast.Attribute)
+                  and canon.c(n.targets[0], Frame(st)) == 'Scheduler.status']
         okw = bool(writes) and all(canon.c(n.value, Frame(st)) == need for n in writes)
         (res.ok if okw else res.bad)('C04.T14', st, writes[0] if writes else None, 'Scheduler.start sets status = %s' % need,
                                      'ok' if okw else 'Scheduler.start does not put the scheduler into the status %s that Scheduler.run '
